@@ -108,7 +108,7 @@ def gen_var(nprs, var, dates, bias):
 
 
 # ------------------------------------------------------------------ the debiasers under test (real classes, real scipy)
-def make_debiaser(name, mode, var="pr", fast=True):
+def make_debiaser(name, mode, var="pr", fast=True, delta_shift="additive"):
     """mode: 'win' (running windows; + year windows for CDFt / QDM) | 'nowin' (window-free; ISIMIP: month mode)"""
     from ibicus.debias import (CDFt, DeltaChange, ISIMIP, LinearScaling, QuantileDeltaMapping, QuantileMapping,
                                ScaledDistributionMapping)
@@ -130,7 +130,7 @@ def make_debiaser(name, mode, var="pr", fast=True):
         if name == "ScaledDistributionMapping":
             return ScaledDistributionMapping.from_variable("pr", **rw)
         if name == "CDFt":
-            return CDFt.from_variable("pr", **rw, **yw)
+            return CDFt.from_variable("pr", delta_shift=delta_shift, **rw, **yw)
         if name == "QuantileDeltaMapping":
             return QuantileDeltaMapping.from_variable("pr", **rw, **yw)
         if name == "ISIMIP":
@@ -272,6 +272,8 @@ def gen_case(rng, name, var, mode, tier):
         case["shape"] = [round(rng.uniform(0.45, 1.2), 2) for _ in range(3)]
         case["drizzle"] = rng.choice([0.0, 0.0, 0.05, 0.15])
         case["at_threshold"] = rng.choice([0, 0, 3])
+        if name == "CDFt":  # SSR with every delta shift (additive is the default for pr)
+            case["delta_shift"] = rng.choice(["additive", "multiplicative", "no_shift"])
     else:
         case["bias"] = [rng.choice([-1, 0, 1]) for _ in range(3)]
         case["nan_fraction"] = rng.choice([0.0, 0.0, 0.1]) if var == "prsnratio" else 0.0
@@ -302,7 +304,7 @@ def run_case(case):
     series, (tO, tH, tF) = build_inputs(case)
     o, h, f = series
     name, var, mode = case["debiaser"], case["variable"], case["mode"]
-    deb = make_debiaser(name, mode, var, fast=case.get("fast_windows", True))
+    deb = make_debiaser(name, mode, var, fast=case.get("fast_windows", True), delta_shift=case.get("delta_shift", "additive"))
     info = {}
     if var == "pr":
         thr = max(THR_ISIMIP, THR_QDM)
@@ -380,7 +382,10 @@ def run(tier, res, force_search=False):
     t1 = time.time()
     try:
         n_deb = 10 if tier == "quick" else 120
-        mm = DC.correspondence(rng, n_deb, tier, res, families=DEB_CORR_FAMILIES)
+        mm = DC.correspondence(rng, n_deb, tier, res, families=[x for x in DEB_CORR_FAMILIES if x != "CDFt"])
+        first_part = res.extra.pop("debiasers_corr", None)
+        mm += DC.correspondence(rng, 3 * n_deb, tier, res, families=["CDFt"])  # many configurations (shift x ecdf/iecdf pair x SSR)
+        res.extra["debiasers_corr_other_families"] = first_part
         if mm:
             res.tie_broken.append(f"correspondence DrvDebiasers: {len(mm)} mismatches, first: {str(mm[0])[:700]}")
             mismatches += [{k: (str(v)[:400]) for k, v in m.items()} for m in mm[:3]]
